@@ -464,6 +464,9 @@ func runC06(c *core.Ctx) {
 				return
 			}
 			if prm, isP := core.Resolve(core.Unwrap(call.Call.Args[1])).(*ssa.Parameter); isP && len(f.Blocks) == 1 {
+				if cl := c06clearedBefore(call, prm); cl["Val"] && cl["Prev"] && cl["Next"] {
+					return // a helper that blanks the node itself: it is the put site
+				}
 				for i, q2 := range f.Params {
 					if q2 == prm {
 						forwards[f] = i
@@ -498,17 +501,7 @@ func runC06(c *core.Ctx) {
 			}
 			nPut++
 			c.Analysed(core.FuncName(f))
-			cleared := map[string]bool{}
-			for _, i2 := range call.Block().Instrs {
-				if i2 == ins {
-					break
-				}
-				if st, isS := i2.(*ssa.Store); isS && core.IsNilConst(st.Val) {
-					if fa, isFA := st.Addr.(*ssa.FieldAddr); isFA && core.Resolve(core.FieldOwner(fa)) == node {
-						cleared[core.FieldName(fa.X.Type(), fa.Field)] = true
-					}
-				}
-			}
+			cleared := c06clearedBefore(call, node)
 			if !(cleared["Val"] && cleared["Prev"] && cleared["Next"]) {
 				okPut, dPut = false, fmt.Sprintf("%s puts a node into the GC pool at %s without clearing Val/Prev/Next (cleared: %v): a later Get hands out a node that still points into the list, and inserting it resurrects stale nodes", core.FuncName(f), p.InstrPos(ins), cleared)
 			}
@@ -642,6 +635,20 @@ func c06ownership(c *core.Ctx) {
 				if st, ok := ins.(*ssa.Store); ok && core.IsNilConst(st.Val) && core.InLoop(st.Block()) {
 					if fa, isFA := st.Addr.(*ssa.FieldAddr); isFA && c06isNodePtr(fa.X.Type()) {
 						clears = true
+					}
+				}
+				// ... or hands each visited node to a helper that resets it
+				if call, ok := ins.(*ssa.Call); ok && core.InLoop(call.Block()) {
+					if h := core.Callee(&call.Call); h != nil && h.Pkg == p.Fpgo && len(h.Blocks) > 0 {
+						core.Instrs(h, func(i2 ssa.Instruction) {
+							if st, isS := i2.(*ssa.Store); isS && core.IsNilConst(st.Val) {
+								if fa, isFA := st.Addr.(*ssa.FieldAddr); isFA && c06isNodePtr(fa.X.Type()) {
+									if _, fromPrm := core.Resolve(core.FieldOwner(fa)).(*ssa.Parameter); fromPrm {
+										clears = true
+									}
+								}
+							}
+						})
 					}
 				}
 			})
@@ -805,4 +812,20 @@ func c06nodeOrigin(p *core.Prog) func(v ssa.Value, depth int, seen map[ssa.Value
 		return oUnknown
 	}
 	return origin
+}
+
+// c06clearedBefore: the fields of node that are set to nil in the block of call, before it.
+func c06clearedBefore(call *ssa.Call, node ssa.Value) map[string]bool {
+	cleared := map[string]bool{}
+	for _, i2 := range call.Block().Instrs {
+		if i2 == ssa.Instruction(call) {
+			break
+		}
+		if st, isS := i2.(*ssa.Store); isS && core.IsNilConst(st.Val) {
+			if fa, isFA := st.Addr.(*ssa.FieldAddr); isFA && core.Resolve(core.FieldOwner(fa)) == node {
+				cleared[core.FieldName(fa.X.Type(), fa.Field)] = true
+			}
+		}
+	}
+	return cleared
 }
